@@ -9,11 +9,11 @@
 
   1. tables = model (`gen_*`): a change of `replay.py`/recorders breaks a proof obligation.
   2. pure theorems for ALL logs: `rebuild_asof_eq_prefix_fold`, `asof_events_are_a_prefix`,
-     `snapshot_plus_tail_eq_full_partial` (all fields but the two time stamps),
+     `snapshot_plus_tail_eq_full` (ALL fields, for the loader of the source under check — generated flag),
+     `snapshot_plus_tail_eq_modTimes` (any loader: all fields but the two time stamps),
      `snapshot_plus_tail_eq_full_iff_loads_times` (the unrestricted statement holds iff the loader
-     restores `start_time/end_time`), instantiated with the generated flag in
-     `snapshot_plus_tail_eq_full_for_source`; `snapshot_plus_tail_eq_full_counterexample` is the
-     concrete witness for the loader as shipped (finding F3).
+     restores `start_time/end_time`), `snapshot_plus_tail_eq_full_counterexample`: the concrete
+     witness for the loader as originally shipped (finding F3, repaired).
   3. engine level, over an abstract history of durable status writes with the events recorded for
      them: `recorder_event_folds_to_written_status` (table level, every recorder call site),
      `replay_agrees_on_covered` (history level).
@@ -150,40 +150,15 @@ theorem rebuild_ignores_later_snapshot (lt : Bool) (log : List Event) (n : Nat) 
   have : ¬ sn.seq ≤ n := by omega
   simp [rebuild, snapshotUsable, this]
 
-/-- the events a snapshot-based rebuild still has to apply, and the full list, on a sorted log -/
-theorem upTo_split (log : List Event) (hs : Sorted log) (k : Nat) (asOf : Option Nat)
-    (hu : ∀ n, asOf = some n → k ≤ n) :
-    upTo (eventsAfter log 0) asOf
-      = upTo (eventsAfter log 0) (some k) ++ upTo (eventsAfter log k) asOf := by
-  cases asOf with
-  | none =>
-    simp only [upTo, eventsAfter, List.filter_filter]
-    have h := filter_split_at log hs (fun e => decide (e.seq > 0)) k
-    rw [h]
-    congr 1
-    · apply List.filter_congr; intro e _; simp [Bool.and_comm]
-    · apply List.filter_congr; intro e _
-      by_cases h1 : k < e.seq <;> simp [h1]; omega
-  | some n =>
-    have hkn : k ≤ n := hu n rfl
-    simp only [upTo, eventsAfter, List.filter_filter]
-    have h := filter_split_at log hs (fun e => decide (e.seq ≤ n) && decide (e.seq > 0)) k
-    rw [h]
-    congr 1
-    · apply List.filter_congr; intro e _
-      by_cases h1 : e.seq ≤ k <;> by_cases h2 : 0 < e.seq <;> simp [h1, h2] <;> omega
-    · apply List.filter_congr; intro e _
-      by_cases h1 : k < e.seq <;> by_cases h2 : e.seq ≤ n <;> simp [h1, h2] <;> omega
-
 /-- **Snapshot + later events = full replay, for every field a snapshot carries** (all sorted logs, all
     snapshot positions `k`, all `as_of`, both loaders).  The snapshot state may be any state that
     agrees with the full replay as of `k` on the carried fields — in particular one produced by a
     rebuild that itself started from an earlier snapshot.
 
-    Full statement (`=` instead of `EqModTimes`): see `snapshot_plus_tail_eq_full_iff_loads_times`;
-    it is FALSE for the loader as shipped (`snapshot_plus_tail_eq_full_counterexample`), which is
-    why this one carries `_partial`.  What is missing is exactly `start_time` and `end_time`. -/
-theorem snapshot_plus_tail_eq_full_partial (lt : Bool) (log : List Event) (hs : Sorted log)
+    The full statement (`=` instead of `EqModTimes`) is `snapshot_plus_tail_eq_full` below; it holds iff the
+    loader restores the time stamps (`snapshot_plus_tail_eq_full_iff_loads_times`) and was FALSE for the
+    loader as originally shipped (`snapshot_plus_tail_eq_full_counterexample`, finding F3, repaired). -/
+theorem snapshot_plus_tail_eq_modTimes (lt : Bool) (log : List Event) (hs : Sorted log)
     (k : Nat) (asOf : Option Nat) (st : State)
     (hst : EqModTimes st (rebuild lt log (some k) none)) :
     EqModTimes (rebuild lt log asOf (some { seq := k, state := st })) (rebuild lt log asOf none) := by
@@ -203,7 +178,7 @@ theorem snapshot_plus_tail_same_statuses (lt : Bool) (log : List Event) (hs : So
     statusOf (rebuild lt log asOf (some { seq := k, state := rebuild lt log (some k) none })) kind id
       = statusOf (rebuild lt log asOf none) kind id :=
   statusOf_congr_modTimes
-    (snapshot_plus_tail_eq_full_partial lt log hs k asOf _ (EqModTimes.refl _)) kind id
+    (snapshot_plus_tail_eq_modTimes lt log hs k asOf _ (EqModTimes.refl _)) kind id
 
 /-- with a loader that restores the time stamps the unrestricted statement holds -/
 theorem snapshot_plus_tail_eq_full_of_loads_times (log : List Event) (hs : Sorted log)
@@ -262,6 +237,16 @@ theorem snapshot_plus_tail_eq_full_for_source :
           = rebuild Stab.Gen.EventMap.snapshotLoadsTimes log asOf none)
       ↔ Stab.Gen.EventMap.snapshotLoadsTimes = true :=
   snapshot_plus_tail_eq_full_iff_loads_times _
+
+/-- **Snapshot + later events = full replay, on ALL fields, for the source tree under check** (all sorted
+    logs, all snapshot positions, all `as_of`).  The proof obligation `snapshotLoadsTimes = true` is
+    discharged from the table generated from `_load_state_from_snapshot`: dropping `start_time` /
+    `end_time` there again (finding F3) breaks this theorem. -/
+theorem snapshot_plus_tail_eq_full (log : List Event) (hs : Sorted log) (k : Nat) (asOf : Option Nat) :
+    rebuild Stab.Gen.EventMap.snapshotLoadsTimes log asOf
+        (some { seq := k, state := rebuild Stab.Gen.EventMap.snapshotLoadsTimes log (some k) none })
+      = rebuild Stab.Gen.EventMap.snapshotLoadsTimes log asOf none :=
+  snapshot_plus_tail_eq_full_for_source.mpr (by decide) log hs k asOf
 
 /-- recording the same status event twice (e.g. a handler retried after its event was appended)
     does not change any status -/
